@@ -144,6 +144,7 @@ func runProp(p *Prop, repo, verif, tier string, seed int, list, writeEvidence bo
 			return 1
 		}
 		files, nfuncs = e.files, len(e.all)
+		debugCensus(e)
 		for _, r := range p.Rules {
 			before := len(e.obs)
 			func() {
